@@ -261,7 +261,9 @@ func run(prop, tier string) int {
 		}
 	}
 	evPath := filepath.Join(verifDir, "evidence", prop+".json")
-	if repoDir() != "/repo" {
+	if os.Getenv("VERIF_CORRUPT") != "" {
+		evPath = filepath.Join(verifDir, ".work", "alt-evidence", "selftest", prop+".json")
+	} else if repoDir() != "/repo" {
 		// scratch runs (mutant self-tests) never touch the committed evidence
 		evPath = filepath.Join(verifDir, ".work", "alt-evidence", sanitize(repoDir()), prop+".json")
 	}
@@ -296,6 +298,20 @@ func run(prop, tier string) int {
 		info := map[string]any{"kind": ph.Kind, "name": ph.Name}
 		switch ph.Kind {
 		case "tlc", "tlc-trace":
+			if ph.Kind == "tlc-trace" && os.Getenv("VERIF_CORRUPT") != "" {
+				// binding self-test (selftest.sh): one recorded value of the trace is changed before
+				// validation; the trace spec must reject the trace
+				tf := ph.Env["TRACE"]
+				if tf == "" {
+					tf = "trace.ndjson"
+				}
+				if msg, err := corruptTrace(filepath.Join(work, tf), os.Getenv("VERIF_CORRUPT")); err != nil {
+					broken = "self-test: cannot corrupt " + tf + ": " + err.Error()
+					break
+				} else {
+					fmt.Println("SELFTEST corrupted " + tf + ": " + msg)
+				}
+			}
 			st, out, err := runTLC(work, ph)
 			info["spec"] = ph.Spec
 			info["cfg"] = ph.Cfg
@@ -575,6 +591,97 @@ var (
 	reViolated = regexp.MustCompile(`(Invariant \S+ is violated|Temporal properties were violated|Deadlock reached|Action property \S+ is violated|The postcondition has been violated|Postcondition \S+ .*is false|Assumption .* is false)`)
 	reCovZero  = regexp.MustCompile(`^<(\w+) line .*>: 0:0`)
 )
+
+// corruptTrace changes one recorded value in the middle of an ndjson trace: the leaf selected by
+// `which` ("last": the last scalar of the line in document order, or a dotted path such as "r.status").
+func corruptTrace(path, which string) (string, error) {
+	b, err := os.ReadFile(path)
+	if err != nil {
+		return "", err
+	}
+	lines := strings.Split(strings.TrimRight(string(b), "\n"), "\n")
+	if len(lines) < 3 {
+		return "", fmt.Errorf("trace too short (%d lines)", len(lines))
+	}
+	for off := 0; off < len(lines)/2; off++ {
+		i := len(lines)/2 + off
+		var v any
+		if err := json.Unmarshal([]byte(lines[i]), &v); err != nil {
+			continue
+		}
+		changed := ""
+		var flip func(x any) (any, bool)
+		flip = func(x any) (any, bool) {
+			switch t := x.(type) {
+			case float64:
+				return t + 1, true
+			case bool:
+				return !t, true
+			case string:
+				return t + "~", true
+			case map[string]any:
+				keys := make([]string, 0, len(t))
+				for k := range t {
+					keys = append(keys, k)
+				}
+				sort.Strings(keys)
+				for j := len(keys) - 1; j >= 0; j-- {
+					if n, ok := flip(t[keys[j]]); ok {
+						changed = keys[j] + "." + changed
+						t[keys[j]] = n
+						return t, true
+					}
+				}
+			case []any:
+				for j := len(t) - 1; j >= 0; j-- {
+					if n, ok := flip(t[j]); ok {
+						t[j] = n
+						return t, true
+					}
+				}
+			}
+			return x, false
+		}
+		target := v
+		if which != "last" && which != "1" {
+			// dotted path into the record
+			cur := v
+			parts := strings.Split(which, ".")
+			okPath := true
+			for _, p := range parts[:len(parts)-1] {
+				m, ok := cur.(map[string]any)
+				if !ok || m[p] == nil {
+					okPath = false
+					break
+				}
+				cur = m[p]
+			}
+			m, ok := cur.(map[string]any)
+			if !okPath || !ok || m[parts[len(parts)-1]] == nil {
+				continue
+			}
+			n, ok2 := flip(m[parts[len(parts)-1]])
+			if !ok2 {
+				continue
+			}
+			m[parts[len(parts)-1]] = n
+			changed = which
+		} else if _, ok := flip(target); !ok {
+			continue
+		}
+		nb, _ := json.Marshal(v)
+		old := lines[i]
+		lines[i] = string(nb)
+		if err := os.WriteFile(path, []byte(strings.Join(lines, "\n")+"\n"), 0o644); err != nil {
+			return "", err
+		}
+		if len(old) > 160 {
+			old = old[:160]
+		}
+		return fmt.Sprintf("line %d field %s (was: %s)", i+1, strings.TrimSuffix(changed, "."), old), nil
+	}
+	return "", fmt.Errorf("no line with a scalar to change")
+}
 
 func runTLC(work string, ph Phase) (tlcStats, string, error) {
 	st := tlcStats{Lines: map[string]int{}}
